@@ -40,6 +40,29 @@ fn main() {
             let code = check::run_check(&opt);
             std::process::exit(code);
         }
+        "gen" => {
+            // triage aid: writes the scenario of one random run (as generated) as a replay file
+            let Some(prop) = args.get(1).cloned() else { usage() };
+            let idx: u64 = flag("--run").and_then(|s| s.parse().ok()).unwrap_or(0);
+            let tier = match flag("--tier").as_deref() {
+                Some("thorough") => posim::check::Tier::Thorough,
+                _ => posim::check::Tier::Quick,
+            };
+            let mut rng = posim::rng::Rng::derive(seed, idx, 0);
+            let case = posim::props::generate(&prop, tier, &mut rng, idx);
+            let rf = posim::scenario::ReplayFile {
+                property: prop.clone(),
+                class: "none".into(),
+                message: String::new(),
+                seed,
+                run: idx,
+                profile: case.profile.to_string(),
+                aux: case.aux.clone(),
+                original_steps: case.scenario.steps.len(),
+                scenario: case.scenario,
+            };
+            println!("{}", serde_json::to_string_pretty(&rf).unwrap());
+        }
         "replay" => {
             let Some(path) = args.get(1) else { usage() };
             std::process::exit(check::run_replay(path));
